@@ -995,11 +995,13 @@ func c14LoadSession(c *Ctx, fn *an.Fn) {
 		}
 		return false
 	})
-	expFail = edgesForcing(fn, func(a ast.Expr, val bool) bool {
+	// the outcomes possible when the certificate is expired (the expiry atom may share its
+	// condition with other disjuncts, e.g. `len(certs) == 0 || now.After(NotAfter)`)
+	expFail = edgesTakenWhen(fn, func(a ast.Expr) (bool, bool) {
 		if e := expiryOf(a); e != nil {
-			return e.expiredWhenTrue == val
+			return true, e.expiredWhenTrue
 		}
-		return false
+		return false, false
 	})
 	if expNode == nil {
 		r.Bad("C14.4", F+":expiry-check", c.Pos(fn.Decl), "no comparison of the time with the cached leaf's NotAfter: an expired cached certificate is resumed")
